@@ -14,11 +14,13 @@ class C02(UtfCheck):
     quick_budget_s = 90
     rule = ('UTF-8 side: digest enumeration of ALL byte strings of length 1 and 2 (thorough: 3) and of all 4-tuples over the 16 '
             'class-boundary bytes {00,7F,80,BF,C0,C1,C2,DF,E0,EF,F0,F4,F5,F7,F8,FF} through utf8_to_utf16/utf32/wchar/latin_1 '
-            '(both flags) and ST::string, every mode; boundary scalars and non-scalars (tolerated forms) in every position next '
+            '(both flags) and ST::string, every mode (thorough: all 3-byte strings with a first byte C0..FF through 3 routes, every '
+            'value 0..0x1FFFFF in generalised UTF-8 form); boundary scalars and non-scalars (tolerated forms) in every position next '
             'to every width; overlong / surrogate / >10FFFF forms in context; valid text cut at every unit, one unit '
             'deleted / duplicated / replaced / inserted. UTF-16 side: all strings of length <= 3 over the surrogate-boundary '
-            'units, mutations of valid text, thorough: each boundary unit followed by all 65536 units. UTF-32 side: boundary '
-            'values pairwise and in every position, all code points 0..0x120000 (thorough) in digest mode. wchar_t aliases. '
+            'units, mutations of valid text, thorough: each boundary unit followed by all 65536 units, all code points as UTF-16. '
+            'UTF-32 side: boundary values pairwise and in every position, blocks around D800/110000/400000/FFFFFFFF, '
+            'thorough: all values 0..0x120000 in digest mode. wchar_t aliases. '
             'Default-mode clause: mode-omitting overloads of every route in builds with -DST_DEFAULT_VALIDATION= '
             'assume_valid / substitute_invalid and the unset default. Seeded random damaged text. '
             'expected = Tokens.spec_conv; under assume_valid on malformed input only "some buffer, no exception" is required. '
@@ -72,17 +74,16 @@ class C02(UtfCheck):
                     for lo in range(0, 65536, 16384):
                         yield enum_case('cb4', fn, route, mode, sub, lo, lo + 16384)
         if not quick:
-            for fn in ('utf8_to_utf32', 'str_from_utf8', 'utf8_to_utf16'):
-                for mode in MODES:
-                    for lo in range(0, 1 << 24, 1 << 19):
-                        yield enum_case('bytes3', fn, 'ptr', mode, '_', lo, lo + (1 << 19))
-            for lo in range(0, 1 << 24, 1 << 19):
-                yield enum_case('bytes3', 'utf8_to_latin_1', 'ptr', 'cv', '0', lo, lo + (1 << 19))
-                yield enum_case('bytes3', 'utf8_to_latin_1', 'ptr', 'si', '1', lo, lo + (1 << 19))
-            for fn in fns8:
+            # all 3-byte strings whose first byte is C0..FF (a first byte below C0 is a token of its own, so those
+            # strings are a one-byte token followed by a 2-byte string already enumerated above): 4.2 M per route
+            for fn, mode, sub in (('utf8_to_utf32', 'cv', '_'), ('str_from_utf8', 'si', '_'), ('utf8_to_utf16', 'si', '_')):
+                for lo in range(0xC00000, 1 << 24, 1 << 19):
+                    yield enum_case('bytes3', fn, 'ptr', mode, sub, lo, lo + (1 << 19))
+            # every value 0..0x1FFFFF in its generalised UTF-8 form (surrogates, values above 0x10FFFF included)
+            for fi, fn in enumerate(('utf8_to_utf16', 'utf8_to_latin_1')):
                 for lo in range(0, 0x200000, 0x40000):
-                    for mode in MODES:
-                        yield enum_case('cp', fn, 'ptr', mode, '1' if fn == 'utf8_to_latin_1' else '_', lo, lo + 0x40000)
+                    mode = MODES[(fi + lo // 0x40000) % 3]
+                    yield enum_case('cp', fn, 'ptr', mode, '1' if fn == 'utf8_to_latin_1' else '_', lo, lo + 0x40000)
         # ---- directed malformed inputs through every reading function, every mode; routes rotate
         for kind in ('8', '16', '32'):
             inputs = malformed_inputs(kind, rng, tier)
@@ -114,23 +115,24 @@ class C02(UtfCheck):
                 yield case(fn, 'lit', 'av', '_', u)
         # ---- UTF-16 / UTF-32 enumerations
         if not quick:
-            for first in SURR_UNITS:
-                for fn in FN_BY_SRC['16']:
-                    for mode in MODES:
-                        yield enum_case('u16x2', fn, 'ptr', mode, '1' if ALL_FN[fn][3] else '_', first << 16, (first << 16) + 65536)
-            for fn in FN_BY_SRC['16']:
+            for k, first in enumerate(SURR_UNITS):
+                for fi, fn in enumerate(FN_BY_SRC['16']):
+                    mode = MODES[(k + fi) % 3]
+                    yield enum_case('u16x2', fn, 'ptr', mode, '1' if ALL_FN[fn][3] else '_', first << 16, (first << 16) + 65536)
+            for fi, fn in enumerate(('utf16_to_utf8', 'utf16_to_utf32', 'str_from_utf16')):
                 for lo in range(0, 0x110000, 0x44000):
-                    yield enum_case('cp', fn, 'ptr', MODES[(lo // 0x44000) % 3], '1' if ALL_FN[fn][3] else '_', lo, lo + 0x44000)
-        for fn in FN_BY_SRC['32']:
+                    yield enum_case('cp', fn, 'ptr', MODES[(fi + lo // 0x44000) % 3], '_', lo, lo + 0x44000)
+        for fi, fn in enumerate(FN_BY_SRC['32']):
             sub = '1' if ALL_FN[fn][3] else '_'
             for mode in MODES:
-                if quick:
-                    rngs = [(0xD000, 0xE800), (0x10F000, 0x110000), (0x110000, 0x111000), (0x3FF800, 0x400800)]
-                else:
-                    rngs = [(lo, lo + 0x22000) for lo in range(0, 0x110000, 0x22000)] + [(0x110000, 0x120000), (0x3FF000, 0x401000),
-                                                                                      (0xFFFFF000, 0x100000000)]
+                rngs = [(0xD000, 0xE800), (0x10F000, 0x110000), (0x110000, 0x111000), (0x3FF800, 0x400800)]
+                if not quick:
+                    rngs += [(0x111000, 0x120000), (0xFFFFF000, 0x100000000)]
                 for lo, hi in rngs:
                     yield enum_case('cp', fn, 'ptr', mode, sub, lo, hi)
+            if not quick and fn in ('utf32_to_utf8', 'utf32_to_utf16', 'utf32_to_latin_1', 'str_from_wchar'):
+                for lo in range(0, 0x110000, 0x22000):
+                    yield enum_case('cp', fn, 'ptr', MODES[(fi + lo // 0x22000) % 3], sub, lo, lo + 0x22000)
         # ---- default-mode clause: three builds, every mode-omitting overload
         dflt_inputs = {
             '8': [[0x41, 0xC3, 0xA9], [0xC3], [0x41, 0x80, 0x42], [0xF4, 0x8F, 0xBF, 0xBF], [0xE2, 0x82], [0xFF], [],
@@ -146,7 +148,7 @@ class C02(UtfCheck):
                         for c in default_calls(fn, u, dm, tag or None):
                             yield c
         # ---- seeded random damaged text
-        nrand = 1500 if quick else 40000
+        nrand = 1500 if quick else 20000
         for _ in range(nrand):
             kind = rng.choice(['8', '8', '16', '32'])
             n = rng.choice([1, 2, 3, 4, 5, 6, 8, 12, 16, 17, 33])
